@@ -129,7 +129,7 @@ def main():
             "engine": "cosilint",
             "level_claimed": {"category": "other", "text": text, "design_ref": "DESIGN.md " + ref},
             "level_note": TRUST,
-            "technique": "static analysis: " + tech,
+            "technique": "static analysis: " + tech + " (evaluated on go/ssa after helper inlining; reachability is path-sensitive on SSA value identity, no solver)",
         })
     na = []
     for pid in ALL:
